@@ -35,7 +35,7 @@ type rscript struct {
 }
 
 func (g *gen) makeScript() rscript {
-	s := rscript{version: 2 + g.r.Intn(2), seed: g.r.Int63(), mutation: g.r.Intn(16)}
+	s := rscript{version: 2 + g.r.Intn(2), seed: g.r.Int63(), mutation: g.r.Intn(19)}
 	base := 2
 	if s.version == 3 {
 		base = 4
@@ -75,7 +75,18 @@ func (g *gen) makeScript() rscript {
 	s.steps = append(s.steps, rstep{kind: "sendA", text: g.cleanText()}, rstep{kind: "dAB"}, rstep{kind: "dBA"},
 		rstep{kind: "sendB", text: g.cleanText()}, rstep{kind: "dBA"}, rstep{kind: "dAB"})
 	s.injectAt = 1 + g.r.Intn(len(s.steps)-8)
+	if g.r.Intn(4) == 0 {
+		s.injectAt = 1 + g.r.Intn(14) // during the key exchange
+	}
 	s.target = []string{"A", "B"}[g.r.Intn(2)]
+	if s.mutation >= 16 {
+		// needs a data message that has not been delivered yet: just before one of the two final deliveries
+		if g.r.Intn(2) == 0 {
+			s.injectAt, s.target = len(s.steps)-5, "B"
+		} else {
+			s.injectAt, s.target = len(s.steps)-2, "A"
+		}
+	}
 	return s
 }
 
@@ -160,6 +171,36 @@ func (g *gen) craftInjection(sc rscript, pending, seen [][]byte, tgt, src *party
 			hdr = []byte{0, 2, t}
 		}
 		return append(append([]byte("?OTR:"), otr3.VerifB64Encode(append(hdr, g.bytesN(20+g.r.Intn(60))...))...), '.'), fmt.Sprintf("garbage-ake-%x", t)
+	case 16, 17, 18: // re-encode the next-DH-key MPI of a genuine data message non-minimally (length prefix
+		// raised by k, k leading zero bytes): same number, different authenticated bytes, original MAC
+		var cands [][]byte
+		for _, m := range pending {
+			if isDataWire(m) {
+				cands = append(cands, m)
+			}
+		}
+		if len(cands) == 0 {
+			return nil, ""
+		}
+		base = append([]byte{}, cands[g.r.Intn(len(cands))]...)
+		bin := decodeWire(base)
+		off := 3 + 1 + 8
+		if sc.version == 3 {
+			off = 11 + 1 + 8
+		}
+		if len(bin) < off+4 {
+			return nil, ""
+		}
+		l := int(bin[off])<<24 | int(bin[off+1])<<16 | int(bin[off+2])<<8 | int(bin[off+3])
+		if l == 0 || off+4+l > len(bin) {
+			return nil, ""
+		}
+		k := 1 + g.r.Intn(3)
+		out := append([]byte{}, bin[:off]...)
+		out = append(out, byte((l+k)>>24), byte((l+k)>>16), byte((l+k)>>8), byte(l+k))
+		out = append(out, make([]byte, k)...)
+		out = append(out, bin[off+4:]...)
+		return encodeWire(out), "nonminimal-mpi-flip"
 	case 14: // damage only the MAC / tail
 		if base == nil {
 			return nil, ""
@@ -326,6 +367,12 @@ func (g *gen) runScript(w *world, sc rscript, inject bool) (obs []string, injInf
 						}
 						if isDataWire(m) && (strings.Contains(lastEvents, "smp:") || strings.Contains(lastEvents, "key:") || strings.Contains(lastEvents, "sec:")) && plain == nil && err != nil {
 							olog.viol("C02", "tampered-tlv-processed", injInfo)
+						}
+					}
+					if what == "nonminimal-mpi-flip" {
+						// the re-encoded field lies inside the authenticated part: nothing may happen at all
+						if plain != nil || lastInjectionEffect != "no-visible-state-change" {
+							olog.viol("C02", "reencoded-message-accepted", injInfo+" (target state change: "+lastInjectionEffect+")")
 						}
 					}
 					if strings.Contains(what, "-tag") {
